@@ -440,6 +440,10 @@ func loadChunk(l *Lexer, recordLen uint64) error {
 			return ErrChunkTooLarge
 		}
 		if uint64(len(l.uncompressedChunk)) < uncompressedSize {
+			// guard the doubling below against overflow
+			if uncompressedSize >= math.MaxInt32 {
+				return fmt.Errorf("failed to allocate chunk buffer: %w", ErrLengthOutOfRange)
+			}
 			l.uncompressedChunk, err = makeSafe(uncompressedSize * 2)
 			if err != nil {
 				return fmt.Errorf("failed to allocate chunk buffer: %w", err)
